@@ -91,3 +91,35 @@ TEXT["C14"] = {
              "it, the defect was repaired in /repo (fix: commit), the model is of the repaired code. Tie: real notifier code vs the compiled model over all option combinations."),
     "note": ("Trusted: Lean kernel + standard axioms; harness incl. time shifting (interval boundaries approached to 8 ms, never compared exactly). Reading: send-interval applies within an incident."),
 }
+
+TEXT["C05"] = {
+    "design_ref": "DESIGN.md §4.5",
+    "technique": "Lean 4 theorems over a model of getConsumerStatus + goswarm (key round trip/injectivity, freshness invariant over all request histories) + differential correspondence; partial on scheduling",
+    "text": ("Proof (partial on the concurrent clause): Props/C05.lean proves that the cache key splits back into exactly the cluster and group it was built from for all names incl. spaces "
+             "(parse_mkKey, key_injective: no cross-talk), every request gets one reply naming its own cluster and group, for every time-ordered request history and every storage evolution "
+             "a reply equals the evaluation of storage for the request's own group at an instant within the cache lifetime when the lifetime is positive (freshness; NOTFOUND iff no live data then), "
+             "and serving a filtered view leaves the cache as a full-view request would (filtered_view_pure). expire_zero_witness is the known finding D16 (lifetime 0 = cached forever), reported "
+             "as KNOWN-FINDING. The key-collision defect D5 was found by the check and repaired in /repo. Tie: real CachingEvaluator + goswarm on real storage vs the compiled model."),
+    "note": ("Trusted: Lean kernel + standard axioms; harness incl. cache-ageing hook; goswarm modelled from source. Not modelled: goroutine-per-request scheduling and liveness (observed only), "
+             "evaluation time. The tie is sampled."),
+}
+TEXT["C11"] = {
+    "design_ref": "DESIGN.md §4.11",
+    "technique": "Lean 4 theorems over a model of one refresh cycle parameterised by all of Kafka's answers and faults + differential correspondence against a scripted fake Kafka",
+    "text": ("Proof: Props/C11.lean proves for every state, every cluster layout and every pattern of faults in a cycle: a partition is in broker b's request iff it is a led partition of the "
+             "snapshot whose leader lookup answers b now, exactly once over all brokers (asked_iff, asked_once); every successful answer yields exactly one update with the answered offset and the "
+             "partition count of the last complete refresh, leaderless partitions included (success_yields_one_update, count_is_partition_count); every update stems from an answer of this very "
+             "cycle (no_fabrication); a failed call or a per-partition error yields no update for the affected partitions; an error code or unknown leader forces a metadata re-read next cycle. "
+             "Tie: real getOffsets vs the compiled model on generated layouts and fault patterns over consecutive cycles."),
+    "note": ("Trusted: Lean kernel + standard axioms; harness and the fake Kafka in core/verifhook (reads sarama.OffsetRequest blocks by reflection); faithful-broker assumption where stated. "
+             "Not modelled: goroutine parallelism per broker, send time-outs."),
+}
+TEXT["C12"] = {
+    "design_ref": "DESIGN.md §4.12",
+    "technique": "Lean 4 theorems over sequences of refresh cycles (all metadata histories and failure positions) + differential correspondence against a scripted fake Kafka",
+    "text": ("Proof: Props/C12.lean proves: a topic is reported deleted in a cycle iff that cycle's refresh completes, the topic was in the snapshot of the previous complete refresh and is absent "
+             "now (delete_iff), at most once per cycle; a complete refresh replaces the snapshot by the listed topics, a refresh failing at the topic list or any partition list (or no refresh) "
+             "keeps it and deletes nothing; listed topics are never deleted whatever their leaders; and over any sequence of cycles, between two reports of the same topic there is a complete "
+             "refresh in which it was present again (exactly_once). Tie: real getOffsets/maybeUpdateMetadataAndDeleteTopics vs the compiled model with topics appearing, disappearing, re-appearing and failures at every position."),
+    "note": ("Trusted: Lean kernel + standard axioms; harness and fake Kafka. The tie is sampled."),
+}
